@@ -15,8 +15,10 @@ from .solve import solve_all, second_solver, to_smt2
 from . import solve as SOLVE
 
 HERE = os.path.dirname(os.path.dirname(os.path.abspath(__file__)))
-EVIDENCE_DIR = os.path.join(HERE, "evidence")
-REPLAY_DIR = os.path.join(HERE, "replays")
+# VERIF_OUT redirects evidence and replays (used when trying a seeded change in a scratch worktree, so that the
+# committed evidence of /repo itself is not overwritten)
+EVIDENCE_DIR = os.path.join(os.environ.get("VERIF_OUT", HERE), "evidence")
+REPLAY_DIR = os.path.join(os.environ.get("VERIF_OUT", HERE), "replays")
 KNOWN = os.path.join(HERE, "known_findings.json")
 
 FINITE_B = {"quick": 3, "thorough": 4}
